@@ -69,6 +69,7 @@ type caseOut struct {
 	Wreal bool     `json:"wreal"` // wr records come from the real writer
 	Wmax  int      `json:"wmax"`  // longest packet the write path under test supports
 	Wb    int      `json:"wb"`    // write buffer of the packet connection (0: none)
+	Stall bool     `json:"stall"` // the peer did not read while the packets were written (a full write buffer may refuse packets)
 	Abuf  string   `json:"abuf"`  // shape of the application's ReadFrom buffer (tcpPacketConn cases)
 	Adrop []bool   `json:"adrop"` // per packet: longer than the application's buffer, so ReadFrom must refuse it (tcpPacketConn cases)
 	Wr    []wrRec  `json:"wr"`
